@@ -25,7 +25,7 @@ theorem gsOk_of_decide (gs : List Text) (h : ∀ w ∈ gs, ∀ c ∈ w, isSpace 
 theorem fsample_wf : FWFds fsample := by
   have b1 : FBaseOk ⟨"uRL".toList, ['u'], [(none, 3), (some ['t'], 2)], []⟩ :=
     { ty := ⟨by decide, by decide, by decide, by decide, by decide, ⟨"|S128".toList, by decide⟩⟩
-      name := nameOk_of_decide _ (by decide)
+      name := (nameOk_of_decide _ (by decide)).raw
       dims := by
         intro e he
         simp only [List.mem_cons, List.not_mem_nil, or_false] at he
@@ -35,12 +35,12 @@ theorem fsample_wf : FWFds fsample := by
       gs := gsOk_of_decide _ (by decide) }
   have b2 : FBaseOk ⟨"Int".toList, ['i'], [], [[], [], [], [], [], [], [' ', '\n']]⟩ :=
     { ty := ⟨by decide, by decide, by decide, by decide, by decide, ⟨">i".toList, by decide⟩⟩
-      name := nameOk_of_decide _ (by decide)
+      name := (nameOk_of_decide _ (by decide)).raw
       dims := by intro e he; cases he
       gs := gsOk_of_decide _ (by decide) }
   have b3 : FBaseOk ⟨"byte".toList, ['a'], [(none, 2)], []⟩ :=
     { ty := ⟨by decide, by decide, by decide, by decide, by decide, ⟨"B".toList, by decide⟩⟩
-      name := nameOk_of_decide _ (by decide)
+      name := (nameOk_of_decide _ (by decide)).raw
       dims := by
         intro e he
         simp only [List.mem_cons, List.not_mem_nil, or_false] at he
@@ -48,7 +48,7 @@ theorem fsample_wf : FWFds fsample := by
       gs := gsOk_of_decide _ (by decide) }
   have b4 : FBaseOk ⟨"Float64".toList, ['m'], [(some ['m'], 2)], []⟩ :=
     { ty := ⟨by decide, by decide, by decide, by decide, by decide, ⟨">d".toList, by decide⟩⟩
-      name := nameOk_of_decide _ (by decide)
+      name := (nameOk_of_decide _ (by decide)).raw
       dims := by
         intro e he
         simp only [List.mem_cons, List.not_mem_nil, or_false] at he
@@ -57,7 +57,7 @@ theorem fsample_wf : FWFds fsample := by
   have g : FGridOk "GRID".toList "array".toList "Maps".toList ['g'] [] ⟨"byte".toList, ['a'], [(none, 2)], []⟩
       [⟨"Float64".toList, ['m'], [(some ['m'], 2)], []⟩] :=
     { hkw := ⟨by decide⟩, hkwA := ⟨by decide⟩, hkwM := ⟨by decide⟩
-      hname := nameOk_of_decide _ (by decide)
+      hname := (nameOk_of_decide _ (by decide)).raw
       hgs := gsOk_of_decide _ (by decide)
       harr := b3
       hmaps := by
@@ -67,12 +67,70 @@ theorem fsample_wf : FWFds fsample := by
       hnodup := by decide }
   exact
     { hkw := ⟨by decide⟩
-      hname := nameOk_of_decide _ (by decide)
+      hname := (nameOk_of_decide _ (by decide)).raw
       hgs := gsOk_of_decide _ (by decide)
       hkids := by
         simp only [fsample, FWFL, FWFT, and_true]
-        exact ⟨b1, ⟨⟨by decide⟩, nameOk_of_decide _ (by decide), gsOk_of_decide _ (by decide), b2, by decide⟩, g⟩
+        exact ⟨b1, ⟨⟨by decide⟩, (nameOk_of_decide _ (by decide)).raw, gsOk_of_decide _ (by decide), b2, by decide⟩, g⟩
       hnodup := by decide }
+
+/-! ### a foreign-style sample whose names need quoting (non-vacuity of the raw-name domain) -/
+
+theorem rawNameOk_of_decide (n : Text)
+    (h : n ≠ [] ∧ (∀ c ∈ n, notSemiBr c = true) ∧ (∀ c ∈ n, c.toNat < 128) ∧ (∀ c ∈ n, c ≠ '/') ∧
+      (n.take 4 = ['d', 'a', 'p', '4'] → ∀ c ∈ n.take 8, isNameRe c = true) ∧
+      (n.head?.all fun c => !isSpace c) = true) :
+    RawNameOk n :=
+  ⟨h.1, h.2.1, h.2.2.1, h.2.2.2.1, h.2.2.2.2.1, by
+    intro c cs e
+    have := h.2.2.2.2.2
+    rw [e] at this
+    simpa using this⟩
+
+/-- `Dataset { Int32 a.b c[2]; Structure { Byte u&v; } s t; } my ds;` — a dot, blanks, `&` inside names -/
+def fsampleRaw : FDataset :=
+  ⟨"Dataset".toList, "my ds".toList, [[' '], ['\n'], [' ']],
+   [.base ⟨"Int32".toList, "a.b c".toList, [(none, 2)], []⟩,
+    .cont false "Structure".toList "s t".toList [[' '], ['\n']]
+      [.base ⟨"Byte".toList, "u&v".toList, [], []⟩]]⟩
+
+theorem fsampleRaw_wf : FWFds fsampleRaw := by
+  have b1 : FBaseOk ⟨"Int32".toList, "a.b c".toList, [(none, 2)], []⟩ :=
+    { ty := ⟨by decide, by decide, by decide, by decide, by decide, ⟨">i".toList, by decide⟩⟩
+      name := rawNameOk_of_decide _ (by decide)
+      dims := by
+        intro e he
+        simp only [List.mem_cons, List.not_mem_nil, or_false] at he
+        subst he; exact entryOk_none 2 (by decide)
+      gs := gsOk_of_decide _ (by decide) }
+  have b2 : FBaseOk ⟨"Byte".toList, "u&v".toList, [], []⟩ :=
+    { ty := ⟨by decide, by decide, by decide, by decide, by decide, ⟨"B".toList, by decide⟩⟩
+      name := rawNameOk_of_decide _ (by decide)
+      dims := by intro e he; cases he
+      gs := gsOk_of_decide _ (by decide) }
+  exact
+    { hkw := ⟨by decide⟩
+      hname := rawNameOk_of_decide _ (by decide)
+      hgs := gsOk_of_decide _ (by decide)
+      hkids := by
+        simp only [fsampleRaw, FWFL, FWFT, and_true]
+        exact ⟨b1, ⟨by decide⟩, rawNameOk_of_decide _ (by decide), gsOk_of_decide _ (by decide), b2, by decide⟩
+      hnodup := by decide }
+
+/-- what it declares: every name quoted -/
+theorem fsampleRaw_decl :
+    declDs fsampleRaw = ⟨"my%20ds".toList,
+      [.base ⟨"a%2Eb%20c".toList, ">i".toList, [2], [], true⟩,
+       .struct "s%20t".toList [.base ⟨"u%26v".toList, "B".toList, [], [], true⟩]]⟩ := by
+  have n1 : quoteName "my ds".toList = "my%20ds".toList := by decide
+  have n2 : quoteName "a.b c".toList = "a%2Eb%20c".toList := by decide
+  have n3 : quoteName "s t".toList = "s%20t".toList := by decide
+  have n4 : quoteName "u&v".toList = "u%26v".toList := by decide
+  have t1 : declTy "Int32".toList = ">i".toList := by decide
+  have t2 : declTy "Byte".toList = "B".toList := by decide
+  simp only [fsampleRaw, declDs, declL, declT, declBase, n1, n2, n3, n4, t1, t2, Bool.false_eq_true, if_false,
+    List.map_cons, List.map_nil, List.filterMap_cons, List.filterMap_nil]
+  rfl
 
 /-! ### a pydap-style sample inside the domain of `parse_print` (non-vacuity) -/
 
